@@ -228,7 +228,7 @@ def run(tier, replay=None):
         "certificate names range over {a.x, b.x, *.x, a.b.x, *.b.x} (two concretisations of the labels), 8 certificate variants over 4 fingerprints, 3 expiries; probe names add c.x, c.b.x, x, c.a.x, b.a.b.x",
         "among certificates with the same expiry any placement is admissible (the spec is a relation there); the code's choice (newest wins) is not demanded",
         "server names reach the resolver lower-cased and without trailing dot, as rustls delivers them; upper/mixed-case SNI is exercised in the handshake legs",
-        "certificate names are given in lower case; name lists are sets (no duplicate entries in `names`)",
+        "certificate names are spelled in lower, upper or mixed case, with or without the trailing dot of the absolute form (seeded concretisation of the same model name); name lists are sets (no duplicate entries in `names`)",
         "replace_certificate is observed atomically (as the worker does, under the resolver lock): the add-before-remove order is checked in the model and through the failing-add case",
     ]
     rep.finish()
